@@ -1,15 +1,20 @@
 import TsRsVerif.Model.Deps
 import TsRsVerif.Lemmas.ImportLemmas
+import TsRsVerif.Lemmas.DepsLemmas
 /-!
 # C03 — exported files import exactly the names they use, from where they live
 
 Theorems about `generateImports` (= `generate_imports`, export.rs:326-381) for EVERY list of visited
 dependencies (every dependency graph, every placement): the import block never imports from the
 file itself, names every specifier once and every name once per specifier, in sorted order.
-That the visited list equals the names the declaration USES ("imports exactly what it uses") depends
-on the derive recording the right dependencies arm by arm; that part is PARTIAL: it is decided on
-every run by the closure oracle over the real exported directories (independent TypeScript reader),
-and the four known exceptions are recorded as findings with witnesses.
+`C03_imports_exactly_used`: for every monomorphic item of the fragment (structs of every shape, enums of every
+representation, rename / tag / skip / optional, any library types around user types, generic user types applied to
+arguments) the names `dependencies()` visits are EXACTLY the names the declaration mentions — nothing missing, nothing
+unused (`Lemmas/UsedNames.lean`: mentioned = visited for every type expression; `Lemmas/DepsLemmas.lean`: per field,
+variant, item). Its hypotheses exclude exactly the recorded findings (zero-length arrays, `inline` / `flatten`).
+PARTIAL: generic items themselves, `inline`, `flatten`, `as`; there the claim is decided on every run by the closure
+oracle over the real exported directories (independent TypeScript reader), and the four known exceptions are recorded
+as findings with witnesses.
 -/
 namespace TsRs
 open Text Derive Merge
@@ -88,6 +93,30 @@ theorem C03_generate_imports (esm : Bool) (cwd outDir : Str) (it : Item) (deps :
     | ok m =>
       simp only [hf, Option.some.injEq, Except.ok.injEq] at h
       exact ⟨m, h.symm, C03_import_block esm cwd outDir _ _ m hf⟩
+
+/-- **imports exactly what it uses**: the names visited by `dependencies()` of a monomorphic item of the fragment are
+exactly the names its declaration mentions -/
+theorem C03_imports_exactly_used (cfg : Cfg) (env : Env) (it : Item) (f : Nat) (body : Ts)
+    (hfind : env.find it.name = some it) (hg : it.generics = [])
+    (hta : it.attr.typeAs = none) (hto : it.attr.typeOverride = none)
+    (hv : ∀ v ∈ it.variants, v.attr.typeAs = none ∧ v.attr.typeOverride = none)
+    (hp : ∀ fld ∈ it.fields, PlainField env f fld) (hpv : ∀ v ∈ it.variants, ∀ fld ∈ v.fields, PlainField env f fld)
+    (hb : Tree.itemBody cfg env it = some body) :
+    ∀ n, n ∈ idents (visitDeps env (f + 1) (.named it.name [])) ↔ n ∈ refNames body :=
+  item_visit cfg env it f body hfind hg hta hto hv hp hpv hb
+
+/-- … for every type expression: what `visit::<T>()` + `visit_generics` reach = what the TypeScript name of `T` mentions -/
+theorem C03_type_mentions_eq_visits (cfg : Cfg) (env : Env) (t : RTy) (T : Ts) (f : Nat)
+    (hw : tyWF env t = true) (hd : depthR t < f) (hT : Tree.tyTs cfg env t = some T) :
+    ∀ n, n ∈ idents (visitOne env f t ++ visitGenerics env f t) ↔ n ∈ refNames T :=
+  visit_refs cfg env t T f hw hd hT
+
+/-- the finding C03-zero-length-array, in the model: `[L; 0]` mentions nothing but still visits `L` -/
+theorem C03_cex_zero_length_array :
+    let env : Env := [{ isEnum := false, name := "L".toList, fields := [{ name := some "v".toList, ty := .prim "u8" }] }]
+    refNames ((Tree.tyTs { ops := Case.asciiOps } env (.arr (.named "L".toList []) 0)).getD .never) = [] ∧
+    idents (visitGenerics env 3 (.arr (.named "L".toList []) 0)) = ["L".toList] := by
+  decide +kernel
 
 /-- the type's own instantiation is never among the candidates (`dep.type_id != TypeId::of::<T>()`) -/
 theorem C03_self_filtered (it : Item) (deps : List Visited) :
